@@ -55,8 +55,16 @@ func (g *generator) mapLen() int {
 	return g.r.Range(6, 20)
 }
 
+// Strings with one and the same full 32-bit hash (vals.Hash): maps holding
+// several of them have collision nodes, whose copy-on-write is part of what
+// C14 relies on (a seeded aliasing bug in collisionNode.assoc was only visible
+// with such keys).
+var collidingKeys = []string{"bbb", "bcA", "cAb", "cBA", "d b"}
+
 func (g *generator) mapKey() key {
 	switch g.r.Intn(12) {
+	case 3, 4:
+		return key{kind: 's', s: common.Pick(g.r, collidingKeys)}
 	case 0:
 		return key{kind: 'n', n: g.r.Range(0, 40)}
 	case 1:
@@ -538,5 +546,34 @@ func gen(c *common.Ctx, emit func(...string)) {
 		if g.st.poisoned == "" {
 			g.do("obs")
 		}
+	}
+	// Scripted histories on collision nodes: a map holding several keys with one
+	// and the same 32-bit hash grows by one key (so its entries slice has spare
+	// capacity), an alias is taken, and a further colliding key is added through
+	// the variable and through the alias, in either order, possibly nested in a list.
+	hexs := func(x string) string { return "s:" + common.Hex(x) }
+	for i := 0; i < c.Scale(60, 1500); i++ {
+		ks := append([]string{}, collidingKeys...)
+		for a := len(ks) - 1; a > 0; a-- {
+			b := c.Rand.Intn(a + 1)
+			ks[a], ks[b] = ks[b], ks[a]
+		}
+		nested := c.Rand.Chance(1, 3)
+		m0 := "{ " + hexs(ks[0]) + " s:31 " + hexs(ks[1]) + " s:32 }"
+		path := ""
+		if nested {
+			m0 = "[ s:7a " + m0 + " ]"
+			path = " s:31"
+		}
+		emit("reset", "m="+m0, "n=s:78")
+		emit("do", "direct", "set lv:L1:m"+path+" "+hexs(ks[2])+" = v s:33 ;")
+		emit("do", "direct", "set lv:L2:n = $m ;")
+		first, second := "m", "n"
+		if c.Rand.Bool() {
+			first, second = "n", "m"
+		}
+		emit("do", "direct", "set lv:L3:"+first+path+" "+hexs(ks[3])+" = v s:41 ;")
+		emit("do", "direct", "set lv:L4:"+second+path+" "+hexs(ks[4])+" = v s:42 ;")
+		emit("obs")
 	}
 }
